@@ -73,10 +73,14 @@ func runC18(c *Collector, r *Rng, thorough bool) {
 				t.Kids[0].Kids[0].Width = pick(r, widthsFor(uint64(len(t.Kids[0].Kids[0].Str)))[1:])
 				var dm cose.Sign1Message
 				if err := dm.UnmarshalCBOR(t.Ser()); err == nil {
+					s0 := oSign1(&dm)
 					cs := cose.NewCountersignature()
 					cs.Headers.Protected.SetAlgorithm(k.alg)
 					cs.Sign(r, k.signer(), &dm, ext)
 					sig0, _ := cose.Countersign0(r, k.signer(), dm, ext)
+					if s1 := oSign1(&dm); s1 != s0 {
+						c.Fail("C18/modified-by-read", "countersigning a decoded message modified the parent", map[string]any{"value": "sign1-decoded", "before": trunc(s0, 600), "after": trunc(s1, 600)})
+					}
 					vals = append(vals, shared{"sign1-decoded/" + k.alg.String(), func() string { return oSign1(&dm) + oSigv((*cose.Signature)(cs)) }, []func() string{
 						func() string { return res(nil, dm.Verify(ext, vf)) },
 						func() string { return res(dm.MarshalCBOR()) },
